@@ -307,6 +307,9 @@ def _discharge_in(F, b, A, z, bi, cls, d):
             return "zone: divisor != 0"
         return None
     if cls == "unwrap":
+        g = _guarded_unwrap(b, bi, d)
+        if g:
+            return g
         r = b.trace(d["recv"])
         if r["kind"] == "rv" and r["rv"]["k"] == "agg" and r["rv"].get("variant") in ("Some", "Ok"):
             return "unwrap of a value just built as Some/Ok"
@@ -333,6 +336,78 @@ def _discharge_in(F, b, A, z, bi, cls, d):
             ok = _le(z, bi, A.lin(z, args[1], "usize"), ln, -1) and _le(z, bi, A.lin(z, args[2], "usize"), ln, -1)
             return "zone: both indices < len" if ok else None
         return None
+    return None
+
+
+def _bool_edge_dominates(b, call_bi, want_true, site_bi):
+    """The bool returned by the call ending block call_bi is switched on (directly, or through one `Not`) and the edge
+    on which it is `want_true` dominates site_bi."""
+    t = b.blocks[call_bi]["t"]
+    if place_proj(t["dest"]) or t.get("to") is None:
+        return False
+    dl = t["dest"]["l"]
+    nb = t["to"]
+    tt = b.blocks[nb]["t"]
+    if tt["k"] != "switch" or tt["ty"] != "bool":
+        return False
+    neg = False
+    p = op_place(tt["o"])
+    if p is None:
+        return False
+    l = p["l"]
+    for st in reversed(b.blocks[nb]["s"]):
+        if not place_proj(st["p"]) and st["p"]["l"] == l:
+            rv = st["rv"]
+            if rv["k"] == "un" and rv["op"] == "Not":
+                neg = not neg
+                l = op_place(rv["a"])["l"]
+            elif rv["k"] == "use" and op_place(rv["o"]) is not None:
+                l = op_place(rv["o"])["l"]
+            else:
+                return False
+    if l != dl:
+        return False
+    zero = [x for v, x in tt["targets"] if v == "0"]
+    f_t, t_t = (zero[0] if zero else None), tt["otherwise"]
+    tgt = t_t if (want_true != neg) else f_t
+    return tgt is not None and tgt != (f_t if tgt == t_t else t_t) and len(b.preds(tgt)) == 1 and b.dominates(tgt, site_bi)
+
+
+def _guarded_unwrap(b, bi, d):
+    """unwrap()/expect() of
+       * `node.attribute(K)` dominated by the true edge of `node.has_attribute(K)` (same node, same literal K);
+       * a local Option/Result dominated by the false edge of `is_none()/is_err()` or the true edge of
+         `is_some()/is_ok()` on that same local, which is not reassigned in between."""
+    r = b.trace(d["recv"])
+    if r["kind"] == "call":
+        q = b.callee_q(r["t"]) or ""
+        if q.endswith("Node::attribute") and len(r["t"]["args"]) == 2:
+            key = _const_str(b, r["t"]["args"][1])
+            node = _atom(b, r["t"]["args"][0])
+            if key is not None:
+                for cbi, t in b.calls():
+                    cq = b.callee_q(t) or ""
+                    if cq.endswith("Node::has_attribute") and len(t["args"]) == 2 and _const_str(b, t["args"][1]) == key \
+                            and _atom(b, t["args"][0]) == node and _bool_edge_dominates(b, cbi, True, bi):
+                        return "dominated by has_attribute(%r) on the same node" % key
+    # a local moved into unwrap
+    p = op_place(d["recv"])
+    if p is None or place_proj(p):
+        return None
+    l = p["l"]
+    rv = b.def_rvalue(l)
+    if rv is not None and rv["k"] == "use" and op_place(rv["o"]) is not None and not place_proj(op_place(rv["o"])) and len(b.defs().get(l, [])) == 1:
+        l = op_place(rv["o"])["l"]
+    if len(b.defs().get(l, [])) != 1:
+        return None
+    for cbi, t in b.calls():
+        cq = (b.callee_q(t) or "")
+        last = cq.rsplit("::", 1)[-1]
+        if last in ("is_err", "is_none", "is_ok", "is_some") and len(t["args"]) == 1:
+            rt = b.ref_target(t["args"][0])
+            if rt is not None and not place_proj(rt) and rt["l"] == l:
+                if _bool_edge_dominates(b, cbi, last in ("is_ok", "is_some"), bi):
+                    return "dominated by the %s() test of the same value" % last
     return None
 
 
@@ -366,6 +441,21 @@ _DIGITS = ("index computed from ParsePart.digit_count / Digit.index, which forma
            "3,000,000 random format codes x 26 values x 6 locales through format_number raised no panic")
 _PF = ("parsed_formulas has one entry per worksheet (pushed/removed together with workbook.worksheets); the sheet index was "
        "validated against workbook.worksheets a few lines earlier; the equality of the two lengths is not derived here")
+C25_ENTRIES = ["import::load_from_xlsx_bytes", "import::load_from_xlsx", "import::load_from_icalc", "model::Model::from_workbook", "model::Model::from_bytes"]
+C25_STOPS = ["model::Model::evaluate", "model::Model::evaluate_cell", "model::Model::evaluate_node_in_context", "model::Model::evaluate_conditional_formatting"]
+C25_EXCEPTIONS = {
+    ("import::conditional_formatting::load_conditional_formatting", "usub:iter - priority"):
+        "`max_p + 1 - cf.priority` where max_p is the maximum of cf.priority over the very list being iterated",
+    ("import::worksheets::load_sheet", "mutator:insert"):
+        "Vec::insert at an index previously obtained as `shared_formulas.len() - 1` after a push or as a position in the same vector, which only grows: index <= len",
+    ("colors::get_indexed_color", "bounds:[index] of expr"):
+        "guards only `index > 63`; every caller on the import path (import::util::get_color_indexed) returns early for a negative index before calling it",
+    ("expressions::lexer::Lexer::consume_column_reference", "index:(*self).chars[..]#2"): _LEXER_INV,
+    ("expressions::parser::static_analysis::args_signature_let::{closure#0}", "usub:None - 1"):
+        "`arg_count - 1` inside the closure mapped over 0..arg_count: it only runs when arg_count >= 1, and is created after the `arg_count < 3` early return",
+    ("language::get_languages::{closure#0}", "unwrap:expect(decode)"): "decodes the embedded language.bin; C34 (DERIVE-CLOSURE, BYTES-SHAPE, source_matches_bin) shows the bytes are the encoding of this type",
+    ("locale::get_locales::{closure#0}", "unwrap:expect(decode)"): "decodes the embedded locales.bin; same argument as language.bin (C34)",
+}
 C11_EXCEPTIONS = {
     ("expressions::lexer::Lexer::consume_column_reference", "index:(*self).chars[..]#2"): _LEXER_INV,
     ("formatter::format::format_number", "index:int_part[..]"): _DIGITS,
@@ -391,7 +481,10 @@ def engine(F, P):
         for suffix, cons in PRECONDITIONS.items():
             for path in F.find(suffix):
                 pre[path] = cons
-        e = _ENGINES[F.dir] = zones.Engine(F, P, LEN_ALIASES, INVARIANTS, preconditions=pre)
+        # postconditions `len(returned Vec) >= argument i` (zones.Engine.post, rule post_rule) were used to triage
+        # add_implicit_intersection: they exposed the fixed-size signatures (fix 12a1e9e); nothing needs them now
+        post = {}
+        e = _ENGINES[F.dir] = zones.Engine(F, P, LEN_ALIASES, INVARIANTS, preconditions=pre, postconditions=post)
     return e
 
 
@@ -496,6 +589,18 @@ def pre_rule(ck, F, rule="PRE"):
             ck.ob(rule, "%s|call-site in %s" % (qn, cq), not bad and not A.gave_up and n > 0,
                   "%s calls %s where its assumed entry condition %s is not established" % (cq, qn, [_spec_str(x[2]) for x in bad][:2]),
                   A.b.file, A.b.loc(bad[0][0])[1] if bad else A.b.line, sample={"callee": qn, "caller": cq, "call_sites": n})
+
+
+def post_rule(ck, F, rule="POST"):
+    """len(returned Vec) >= arg_count at every return of the argument-signature functions (assumed at their call sites)."""
+    P = Program(F)
+    E = engine(F, P)
+    for path in sorted(E.post):
+        A = E.analysis(path)
+        qn = F.qname_of(path).split("::", 1)[-1]
+        ck.ob(rule, "%s|len(result) >= arg_count" % qn, not A.post_failures and not A.gave_up,
+              "%s can return a signature vector shorter than its arg_count argument" % qn, A.b.file,
+              A.b.loc(A.post_failures[0][0])[1] if A.post_failures else A.b.line, sample={"fn": qn})
 
 
 def _spec_str(con):
